@@ -55,6 +55,8 @@ func main() {
 		os.Exit(cmdBuilders(os.Args[2:]))
 	case "schemas":
 		os.Exit(cmdSchemas(os.Args[2:]))
+	case "funcs":
+		os.Exit(cmdFuncs(os.Args[2:]))
 	case "consts":
 		os.Exit(cmdConsts(os.Args[2:]))
 	case "rejects":
@@ -79,7 +81,12 @@ func cmdCheck(args []string) int {
 	explain := fs.String("explain", "", "print every obligation whose key contains this string")
 	noSelf := fs.Bool("no-selftest", false, "thorough: skip self-tests")
 	replay := fs.String("explain-replay", "", "replay file written by a failing run: re-evaluate and print that obligation")
+	noInline := fs.Bool("no-inline", false, "do not inline functions unknown to spec/functions.json before analysis")
 	fs.Parse(args)
+	normaliseVerif = *verif
+	if *noInline {
+		normaliseVerif = ""
+	}
 	if *replay != "" {
 		b, err := os.ReadFile(*replay)
 		if err != nil {
@@ -149,6 +156,10 @@ func cmdCheck(args []string) int {
 			r.Extra["functions_in_module"] = len(p.ModuleFuncs())
 			r.Extra["uio_version"] = p.UioVer
 			head, dirty := gitState(*repo)
+			if p.Inline != nil && (len(p.Inline.Inlined) > 0 || len(p.Inline.Kept) > 0) {
+				r.Extra["normalisation_inlined"] = p.Inline.Inlined
+				r.Extra["normalisation_kept_calls"] = p.Inline.Kept
+			}
 			r.Extra["repo_head"] = head
 			r.Extra["repo_dirty"] = dirty
 			ctx := &Ctx{P: p, R: r, Verif: *verif, Tier: *tier, Explain: *explain}
